@@ -10,17 +10,17 @@ def run(tier, seed):
     alpha = ['complete', 'pause', 'play']
     alpha_k = ['complete', 'pause', 'play', 'kill']
     if tier == 'quick':
-        mc = [dict(name='C10_orders', progs=C.fam(['W1', 'W2', 'W3', 'W4', 'W5']), plans=[[]], alphabet=['complete'], k=3, invariants=INV),
+        mc = [dict(name='C10_orders', progs=C.fam(['W1', 'W2', 'W3', 'W4', 'W5', 'W6']), plans=[[]], alphabet=['complete'], k=3, invariants=INV),
               dict(name='C10_pause', progs=C.fam(['W1', 'W2', 'W3', 'W5']), plans=[[]], alphabet=alpha, k=4, invariants=INV)]
-        rp = [dict(name='C10_orders', progs=C.fam(['W1', 'W2', 'W3', 'W4', 'W5']), plans=[[]], alphabet=['complete'], k=3),
+        rp = [dict(name='C10_orders', progs=C.fam(['W1', 'W2', 'W3', 'W4', 'W5', 'W6']), plans=[[]], alphabet=['complete'], k=3),
               dict(name='C10_pause', progs=C.fam(['W1', 'W3']), plans=[[]], alphabet=alpha_k, k=3),
-              dict(name='C10_children', progs=C.fam(['W1', 'W2', 'W3']), plans=[[]], alphabet=alpha, k=3, run_kw={'children': True})]
+              dict(name='C10_children', progs=C.fam(['W1', 'W2', 'W3', 'W6']), plans=[[]], alphabet=alpha, k=3, run_kw={'children': True})]
     else:
-        mc = [dict(name='C10_orders', progs=C.fam(['W1', 'W2', 'W3', 'W4', 'W5']), plans=[[]], alphabet=['complete'], k=3, invariants=INV),
-              dict(name='C10_pause', progs=C.fam(['W1', 'W2', 'W3', 'W4', 'W5']), plans=[[]], alphabet=alpha_k, k=5, invariants=INV)]
-        rp = [dict(name='C10_orders', progs=C.fam(['W1', 'W2', 'W3', 'W4', 'W5']), plans=[[]], alphabet=['complete'], k=3),
+        mc = [dict(name='C10_orders', progs=C.fam(['W1', 'W2', 'W3', 'W4', 'W5', 'W6']), plans=[[]], alphabet=['complete'], k=3, invariants=INV),
+              dict(name='C10_pause', progs=C.fam(['W1', 'W2', 'W3', 'W4', 'W5', 'W6']), plans=[[]], alphabet=alpha_k, k=5, invariants=INV)]
+        rp = [dict(name='C10_orders', progs=C.fam(['W1', 'W2', 'W3', 'W4', 'W5', 'W6']), plans=[[]], alphabet=['complete'], k=3),
               dict(name='C10_pause', progs=C.fam(['W1', 'W2', 'W3', 'W5']), plans=[[]], alphabet=alpha_k, k=4),
-              dict(name='C10_children', progs=C.fam(['W1', 'W2', 'W3', 'W4']), plans=[[]], alphabet=alpha_k, k=4, run_kw={'children': True})]
+              dict(name='C10_children', progs=C.fam(['W1', 'W2', 'W3', 'W4', 'W6']), plans=[[]], alphabet=alpha_k, k=4, run_kw={'children': True})]
     return core_check.run_check(
         PID, tier, seed, mc, rp,
         level_text='TLC exhaustive over completion orders/outcomes/groupings + replay on real WorkChains (futures and launched children)',
